@@ -1,6 +1,7 @@
 package demo
 
 import (
+	"strings"
 	"testing"
 
 	"github.com/tsawler/tabula/contentstream"
@@ -64,6 +65,33 @@ func TestContentStreamOddHexString(t *testing.T) {
 		}
 		if s, ok := first.(core.String); !ok || string(s) != want {
 			t.Errorf("%q: first string %q, want %q (as the object parser reads it)", src, first, want)
+		}
+	}
+}
+
+// A comment may stand between any two tokens, also between the numbers of an indirect reference.
+func TestCommentInsideReference(t *testing.T) {
+	for _, src := range []string{"[1 %c\n 0 %c\n R]", "<</K 1 %c\n 0 R>>", "7 % gen follows\r\n 2 R"} {
+		obj, err := core.NewParser(strings.NewReader(src)).ParseObject()
+		if err != nil {
+			t.Errorf("%q: %v", src, err)
+			continue
+		}
+		switch v := obj.(type) {
+		case core.Array:
+			if len(v) != 1 || v[0] != (core.IndirectRef{Number: 1, Generation: 0}) {
+				t.Errorf("%q parses to %v", src, v)
+			}
+		case core.Dict:
+			if v.Get("K") != (core.IndirectRef{Number: 1, Generation: 0}) {
+				t.Errorf("%q parses to %v", src, v)
+			}
+		case core.IndirectRef:
+			if v != (core.IndirectRef{Number: 7, Generation: 2}) {
+				t.Errorf("%q parses to %v", src, v)
+			}
+		default:
+			t.Errorf("%q parses to %T", src, obj)
 		}
 	}
 }
